@@ -143,6 +143,9 @@ func (w *jw) fresh() int { w.v++; return w.v }
 var assertionNames = map[string]bool{
 	"assertEquals": true, "assertSame": true, "assertTrue": true, "assertFalse": true, "assertNotNull": true,
 	"assertNull": true, "assertArrayEquals": true, "assertThat": true, "isEqualTo": true, "verify": true,
+	// one name for every other prefix of the tool's assertion list (constants.ASSERTION_LIST:
+	// should, check, maynotbe, is, spec)
+	"shouldBeOpen": true, "checkState": true, "mayNotBeAccessedByAnyLayer": true, "isConsistent": true, "specifiedBy": true,
 }
 
 // qualifier of an assertion under import style 2
@@ -957,9 +960,10 @@ func classify(c Case, truths []fileTruth, root string, mode string) pbt.Verdict 
 // generators
 
 var (
-	subjects      = []string{"Order", "Invoice", "Ledger", "Parser", "Router", "Cache", "Account", "Planner"}
-	helperNames   = []string{"prepareFixture", "runScenario", "exerciseAll", "loadDefaults"}
-	assert1Names  = []string{"assertTrue", "assertNotNull", "assertFalse", "assertNull", "assertThat", "verify"}
+	subjects     = []string{"Order", "Invoice", "Ledger", "Parser", "Router", "Cache", "Account", "Planner"}
+	helperNames  = []string{"prepareFixture", "runScenario", "exerciseAll", "loadDefaults"}
+	assert1Names = []string{"assertTrue", "assertNotNull", "assertFalse", "assertNull", "assertThat", "verify",
+		"shouldBeOpen", "checkState", "mayNotBeAccessedByAnyLayer", "isConsistent", "specifiedBy"}
 	assert2Names  = []string{"assertEquals", "assertSame", "assertArrayEquals"}
 	neutral2Names = []string{"put", "max", "equals", "register"}
 	helperAsserts = []string{"assertNotNull", "assertTrue", "assertEquals"}
